@@ -380,6 +380,20 @@ Proof.
   apply (forallb_false _ _ b); [apply in_seq; lia | exact H].
 Qed.
 
+(* zero ROW sums (so the sum of all entries is zero) do not make a kinetic matrix valid:
+   [[-a, a], [b, -b]] with a <> b is refused on its first column *)
+Theorem reject_khi_zero_row_sums a b :
+  atol < Qabs (b - a) ->
+  sumQ [-a; a; b; -b] == 0 /\ khi_ok (KhiArr [2; 2]%nat [-a; a; b; -b]) = Reject ValueError.
+Proof.
+  intros H. split; [simpl; ring|].
+  apply (reject_khi_column_sum [] 2 [-a; a; b; -b] 0 0); [simpl; lia | lia |].
+  unfold close0. destruct (Qle_bool _ _) eqn:E; [|reflexivity].
+  apply Qle_bool_iff in E. exfalso.
+  assert (Hq : colsum [-a; a; b; -b] 2 0 0 == b - a) by (unfold colsum, at_khi; simpl; ring).
+  rewrite Hq in E. apply (Qlt_not_le _ _ H E).
+Qed.
+
 (* tau = 0 is accepted for every valid kinetic matrix, un-batched or batched *)
 Theorem accept_tau_zero khi d :
   khi_ok khi = Accept -> (d = DNone \/ d = DTrue) -> X_ok 0 khi d = Accept.
